@@ -300,14 +300,18 @@ func init() {
 		return p
 	}
 
-	planTable["C01"] = lsmPlan("Normal-mode histories on the real DB: writes (inline and value-log values), deletes, flushes, every picker compaction, table ageing, value-log GC, with up to two read-only snapshot transactions opened at arbitrary points and kept open; after EVERY transition every open snapshot re-reads every key by Get+ValueCopy, a prefetching forward iterator and a non-prefetching reverse iterator and must still see exactly the newest write at or below its read timestamp (a fresh transaction must see the latest state). Option combinations: the same search under snappy + encryption + 3 levels and in-memory + zstd + larger tables (thorough: more). Concurrent part: readers, committers, a flusher and a compaction interleaved under the controlled scheduler (see C03 scenarios).",
+	planTable["C01"] = lsmPlan("Normal-mode histories on the real DB: writes (inline and value-log values), deletes, flushes, every picker compaction, table ageing, value-log GC, with up to two read-only snapshot transactions opened at arbitrary points and kept open; after EVERY transition every open snapshot re-reads every key by Get+ValueCopy, a prefetching forward iterator and a non-prefetching reverse iterator and must still see exactly the newest write at or below its read timestamp (a fresh transaction must see the latest state). Option combinations: the same search under snappy + encryption + 3 levels and in-memory + zstd + larger tables (thorough: more). Concurrent part: readers, committers, a flusher and a compaction interleaved under the controlled scheduler (see C03 scenarios). Also: an iterator opened in the middle of a value-log GC rewrite (scheduled GC phases), and expiring versions in a three-level layout.",
 		stateRule,
 		[]Stage{sched("c01flush", 2, 16, 30, prm("variant", "flush")), sched("c01flush", 2, 16, 30, prm("variant", "compact")), bfs("lsm", 5, 60, prm("oracle", "c12", "mode", "normal", "keys", 2, "ops", "Sa Sb Da F C0 C1 O X")),
 			// a level-0 trigger of one table, starting with a snapshot open below an overwrite / a delete: later transactions begin (moving the newest read timestamp), the old version is flushed and compacted while the snapshot still needs it
 			bfs("lsm", 4, 40, prm("oracle", "c12", "mode", "normal", "keys", 1, "l0_tables", 1, "ops", "Sa Da F C0 O X"), seq("Sa O Sa"), seq("Sa O Da")),
 			// option combinations: snappy + encryption + 3 levels, in-memory + zstd, big memtable / table sizes
 			bfs("lsm", 4, 30, prm("oracle", "c12", "mode", "normal", "keys", 2, "big", true, "compression", "snappy", "encrypt", true, "max_levels", 3, "ops", "Sa Bb Da F C0 O X")),
-			bfs("lsm", 4, 30, prm("oracle", "c12", "mode", "normal", "keys", 2, "inmemory", true, "compression", "zstd", "table_size", 4096, "base_level_size", 8192, "ops", "Sa Sb Da F C0 O X")), bfs("lsm", 4, 40, prm("oracle", "c12", "mode", "normal", "keys", 2, "big", true, "gc", true, "vlog_max_entries", 1, "ops", "Ba Bb Sa Da F C0 G O X"), seq("Ba Bb F"), seq("Ba Ba F C0"))},
+			bfs("lsm", 4, 30, prm("oracle", "c12", "mode", "normal", "keys", 2, "inmemory", true, "compression", "zstd", "table_size", 4096, "base_level_size", 8192, "ops", "Sa Sb Da F C0 O X")), bfs("lsm", 4, 40, prm("oracle", "c12", "mode", "normal", "keys", 2, "big", true, "gc", true, "vlog_max_entries", 1, "ops", "Ba Bb Sa Da F C0 G O X"), seq("Ba Bb F"), seq("Ba Ba F C0")),
+			// an iterator opened in the middle of a value-log GC rewrite keeps reading its snapshot's values
+			sched("c15gc", 2, 16, 25, prm("variant", "iter")),
+			// an expired newest version compacted into the level above the one holding the older version keeps hiding it
+			bfs("lsm", 4, 30, prm("oracle", "c12", "mode", "normal", "keys", 2, "ttl", true, "big", true, "value_threshold", 1024, "big_size", 400, "l0_tables", 1, "ops", "La Sa F A C0 C1 O X"), seq("Ba Bb F C0"), seq("Ba Bb F C0 La F O X"))},
 		[]Stage{sched("c01flush", 3, 16, 300, prm("variant", "flush")), sched("c01flush", 3, 16, 300, prm("variant", "compact")), sched("c01flush", 2, 16, 300, prm("variant", "compact", "inmemory", false)), bfs("lsm", 7, 900, prm("oracle", "c12", "mode", "normal", "keys", 2, "ops", "Sa Sb Da Db F C0 C1 O X A")), bfs("lsm", 6, 600, prm("oracle", "c12", "mode", "normal", "keys", 2, "big", true, "gc", true, "vlog_max_entries", 1, "ops", "Ba Bb Sa Da F C0 G O X"), seq("Ba Bb F"), seq("Ba Ba F C0")), bfs("lsm", 5, 600, prm("oracle", "c12", "mode", "normal", "keys", 2, "inmemory", true, "ops", "Sa Sb Da F C0 C1 O X")),
 			bfs("lsm", 5, 600, prm("oracle", "c12", "mode", "normal", "keys", 2, "big", true, "compression", "snappy", "encrypt", true, "max_levels", 3, "ops", "Sa Bb Da F C0 C1 O X")),
 			bfs("lsm", 5, 600, prm("oracle", "c12", "mode", "normal", "keys", 2, "inmemory", true, "compression", "zstd", "table_size", 4096, "base_level_size", 8192, "ops", "Sa Sb Da F C0 C1 O X")),
